@@ -1,5 +1,6 @@
 import Pike.Props.C04
 import Pike.Props.C09
+import Pike.Facts
 /-
 C08 — persisted entries survive eviction, restart and kill: never stale, never corrupt.
 Assumption (stated, exercised by the `crash` suite, not proved): the store is an atomic map —
@@ -9,6 +10,9 @@ a `Set` is either entirely there or not, and it never returns bytes that were no
 namespace Pike
 namespace C08
 open Sys Entry
+
+/-- Obligation on the extracted facts: pike's own code uses no `sync.Pool` — the bytes of a record handed to the store are not a view of a buffer another save reuses (the models treat them as immutable values). -/
+theorem facts_no_pooled_buffers : Facts.syncPoolSites = [] := by decide
 
 /-- Obligation on the extracted facts (store/*.go): every store constructor returns the interface type
 `Store`: "pike always starts and serves" also when the store cannot be opened after a stop or kill
